@@ -12,15 +12,24 @@
 #define QTMODEL_BYTES_H
 #include "base.h"
 #define QBA_MAX 65556
+#ifdef QBA_WLOG
+/* -DQBA_WLOG: an array that is only ever appended to through a write stream (the output buffer of an encoder) is a
+   write log: its size, and the byte written at ONE arbitrary witness position g_w (DESIGN 5.2); bytes 2,3 may be patched. */
+#define QBA_WLOG_FIELDS bool wlog; bool w_set; char w_val;
+#define QBA_WLOG_INIT(b) ((b)->wlog = false, (b)->w_set = false, (b)->w_val = 0)
+#else
+#define QBA_WLOG_FIELDS
+#define QBA_WLOG_INIT(b)
+#endif
 #ifndef QBA_OWNED
-typedef struct QByteArray { int n; const char *src; int off; int vlen; bool patched; char p2, p3; } QByteArray;
+typedef struct QByteArray { int n; const char *src; int off; int vlen; bool patched; char p2, p3; QBA_WLOG_FIELDS } QByteArray;
 #define QBA_AT(b,i) ((i) < (b)->vlen ? (((b)->patched && (i) == 2) ? (b)->p2 : ((b)->patched && (i) == 3) ? (b)->p3 : (b)->src[(b)->off + (i)]) : (((b)->patched && (i) == 2) ? (b)->p2 : ((b)->patched && (i) == 3) ? (b)->p3 : (char)0))
 #define QBA_OWN_INIT(b)
 #define QBA_NOT_OWNED(b) 1
 #else
 /* -DQBA_OWNED: small arrays built byte by byte (HMAC pads, the 16-byte XOR pad of address attributes) additionally carry
    their own storage of QBA_OWNED bytes; an owned array is never patched and never a slice. */
-typedef struct QByteArray { int n; const char *src; int off; int vlen; bool patched; char p2, p3; bool owned; char own[QBA_OWNED]; } QByteArray;
+typedef struct QByteArray { int n; const char *src; int off; int vlen; bool patched; char p2, p3; bool owned; char own[QBA_OWNED]; QBA_WLOG_FIELDS } QByteArray;
 #define QBA_SLICE_AT(b,i) ((i) < (b)->vlen ? (((b)->patched && (i) == 2) ? (b)->p2 : ((b)->patched && (i) == 3) ? (b)->p3 : (b)->src[(b)->off + (i)]) : (((b)->patched && (i) == 2) ? (b)->p2 : ((b)->patched && (i) == 3) ? (b)->p3 : (char)0))
 #define QBA_AT(b,i) ((b)->owned ? (b)->own[i] : QBA_SLICE_AT(b,i))
 #define QBA_OWN_INIT(b) ((b)->owned = false)
@@ -33,11 +42,12 @@ static inline void QByteArray_concat(struct QByteArray *r, const struct QByteArr
 #endif
 static inline int  QByteArray_size(const QByteArray *b) { return b->n; }
 static inline bool QByteArray_isEmpty(const QByteArray *b) { return b->n == 0; }
-static inline void QByteArray_ctor(QByteArray *b) { b->n = 0; b->src = 0; b->off = 0; b->vlen = 0; b->patched = false; b->p2 = 0; b->p3 = 0; QBA_OWN_INIT(b); }
-static inline void QByteArray_ctor_fill(QByteArray *b, int n, char ch) { MODEL_LIMIT(ch == 0, "QByteArray(n, ch) with ch != 0"); b->n = n < 0 ? 0 : n; b->src = 0; b->off = 0; b->vlen = 0; b->patched = false; b->p2 = 0; b->p3 = 0; QBA_OWN_INIT(b); }
+static inline void QByteArray_ctor(QByteArray *b) { b->n = 0; b->src = 0; b->off = 0; b->vlen = 0; b->patched = false; b->p2 = 0; b->p3 = 0; QBA_OWN_INIT(b); QBA_WLOG_INIT(b); }
+static inline void QByteArray_ctor_fill(QByteArray *b, int n, char ch) { MODEL_LIMIT(ch == 0, "QByteArray(n, ch) with ch != 0"); b->n = n < 0 ? 0 : n; b->src = 0; b->off = 0; b->vlen = 0; b->patched = false; b->p2 = 0; b->p3 = 0; QBA_OWN_INIT(b); QBA_WLOG_INIT(b); }
 /* resize: only ever followed by readRawData(x.data(), x.size()) in the verified code, which redefines the content;
    bytes beyond the old size are unspecified in Qt, here they read as zero until overwritten (content is never inspected before). */
 static inline void QByteArray_resize(QByteArray *b, int n) { b->n = n < 0 ? 0 : n; if (b->vlen > b->n) b->vlen = b->n; }
+static inline void QByteArray_copy(QByteArray *r, const QByteArray *b) { *r = *b; }
 static inline void QByteArray_left(QByteArray *r, const QByteArray *b, int len) { *r = *b; if (len < 0) len = 0; if (len < r->n) r->n = len; if (r->vlen > r->n) r->vlen = r->n; if (r->n < 4) r->patched = false; }
 
 typedef struct QDataStream { const QByteArray *ba; QByteArray *wba; int pos; } QDataStream;
@@ -80,6 +90,33 @@ static inline void QDataStream_wr_u32_own(QDataStream *s, quint32 v) { MODEL_LIM
   QByteArray_append_char(s->wba, (char)(unsigned char)(v >> 24)); QByteArray_append_char(s->wba, (char)(unsigned char)(v >> 16));
   QByteArray_append_char(s->wba, (char)(unsigned char)(v >> 8)); QByteArray_append_char(s->wba, (char)(unsigned char)v); s->pos += 4; }
 #endif
+#ifdef QBA_WLOG
+size_t g_w;   /* witness position in the write log (nondeterministic, fixed before the call) */
+/* byte of a write log at the witness position (meaningful when g_w < b->n) */
+#define WLOG_W(b) (((b)->patched && g_w == 2) ? (b)->p2 : ((b)->patched && g_w == 3) ? (b)->p3 : (b)->w_val)
+static inline void wlog_put(QDataStream *s, unsigned char v) { QByteArray *b = s->wba;
+  MODEL_LIMIT(b != 0 && s->pos == b->n && (b->wlog || b->n == 0), "write stream: append at the end of a write log only"); MODEL_LIMIT(b->n < 64 * QBA_MAX, "write log size");
+  b->wlog = true; if (g_w == (size_t)b->n) { b->w_set = true; b->w_val = (char)v; }
+#ifdef QBA_OWNED
+  /* a log that is still short is also kept byte by byte (small locals such as the 16-byte XOR pad) */
+  if (b->n < QBA_OWNED && (b->owned || b->n == 0)) { b->own[b->n] = (char)v; b->owned = true; } else { b->owned = false; }
+#endif
+  b->n += 1; s->pos += 1; }
+static inline void QDataStream_wr_u8(QDataStream *s, quint8 v) { wlog_put(s, v); }
+static inline void QDataStream_wr_u16(QDataStream *s, quint16 v) { wlog_put(s, (unsigned char)(v >> 8)); wlog_put(s, (unsigned char)v); }
+static inline void QDataStream_wr_u32(QDataStream *s, quint32 v) { wlog_put(s, (unsigned char)(v >> 24)); wlog_put(s, (unsigned char)(v >> 16)); wlog_put(s, (unsigned char)(v >> 8)); wlog_put(s, (unsigned char)v); }
+/* writeRawData(x.data(), x.size()): appends all bytes of the (slice) array x */
+static inline int QDataStream_writeFrom(QDataStream *s, const QByteArray *x, int len) { QByteArray *b = s->wba;
+  MODEL_LIMIT(len == x->n && !x->wlog, "writeRawData(x.data(), n) with n != x.size() or x a write log");
+  MODEL_LIMIT(b != 0 && s->pos == b->n && (b->wlog || b->n == 0), "write stream: append at the end of a write log only"); MODEL_LIMIT(b->n < 64 * QBA_MAX && len <= QBA_MAX, "write log size");
+  b->wlog = true; if (g_w >= (size_t)b->n && g_w - (size_t)b->n < (size_t)len) { b->w_set = true; b->w_val = QBA_AT(x, (int)(g_w - (size_t)b->n)); }
+  QBA_OWN_INIT(b); b->n += len; s->pos += len; return len; }
+#endif
 /* a plain array: its n bytes are bytes [0,n) of src */
-#define QBA_PLAIN(b, maxn) (0 <= (b)->n && (b)->n <= (maxn) && (b)->vlen == (b)->n && (b)->off == 0 && !(b)->patched && QBA_NOT_OWNED(b))
+#ifdef QBA_WLOG
+#define QBA_NOT_WLOG(b) (!(b)->wlog)
+#else
+#define QBA_NOT_WLOG(b) 1
+#endif
+#define QBA_PLAIN(b, maxn) (0 <= (b)->n && (b)->n <= (maxn) && (b)->vlen == (b)->n && (b)->off == 0 && !(b)->patched && QBA_NOT_OWNED(b) && QBA_NOT_WLOG(b))
 #endif
